@@ -190,6 +190,8 @@ pub enum Re {
   Star(Box<Re>),
   Plus(Box<Re>),
   Opt(Box<Re>),
+  /// `.{0}`: matches the empty string; only used by the classifier's collapse-proof probe
+  Noop,
 }
 
 #[derive(Clone, Debug, PartialEq)]
@@ -214,6 +216,7 @@ fn render_re(r: &Re, out: &mut String, top: bool) {
   match r {
     Re::Ch(c) => out.push(*c),
     Re::Any => out.push('.'),
+    Re::Noop => out.push_str(".{0}"),
     Re::Class(rs) => {
       out.push('[');
       for (a, b) in rs {
@@ -270,6 +273,7 @@ fn re_m(r: &Re, s: &[char], i: usize, k: &mut dyn FnMut(usize) -> bool) -> bool 
   match r {
     Re::Ch(c) => i < s.len() && s[i] == *c && k(i + 1),
     Re::Any => i < s.len() && s[i] != '\n' && k(i + 1),
+    Re::Noop => k(i),
     Re::Class(rs) => i < s.len() && rs.iter().any(|(a, b)| s[i] >= *a && s[i] <= *b) && k(i + 1),
     Re::Cat(v) => {
       fn go(v: &[Re], s: &[char], i: usize, k: &mut dyn FnMut(usize) -> bool) -> bool {
@@ -319,6 +323,7 @@ pub fn re_lower(r: &Re) -> Re {
   match r {
     Re::Ch(c) => Re::Ch(lc(*c)),
     Re::Any => Re::Any,
+    Re::Noop => Re::Noop,
     Re::Class(v) => Re::Class(v.iter().map(|(a, b)| (lc(*a), lc(*b))).collect()),
     Re::Cat(v) => Re::Cat(v.iter().map(re_lower).collect()),
     Re::Alt(v) => Re::Alt(v.iter().map(re_lower).collect()),
@@ -576,6 +581,29 @@ impl Q {
       return false;
     }
     matches!(pattern_mode(sch, an, field, &pat), PatMode::Collapsed(_))
+  }
+  /// Same query with `.{0}` appended to every regex whose operators the tokenizer would strip: the
+  /// pattern accepts the same strings but is analysed into two tokens, so the engine keeps the raw
+  /// pattern. Used to tell defect D2 from D3 when both would explain a result.
+  pub fn collapse_proof(&self, sch: &Sch, an: &Analyzers) -> Q {
+    let f = |c: &Q| c.collapse_proof(sch, an);
+    match self {
+      Q::Regex { field, re } if self.collapses(sch, an) && !matches!(re, Re::Alt(_)) => {
+        Q::Regex { field: field.clone(), re: Re::Cat(vec![re.clone(), Re::Noop]) }
+      }
+      Q::Bool { must, should, must_not, filter, msm, boost } => Q::Bool {
+        must: must.iter().map(f).collect(),
+        should: should.iter().map(f).collect(),
+        must_not: must_not.iter().map(f).collect(),
+        filter: filter.clone(),
+        msm: *msm,
+        boost: *boost,
+      },
+      Q::DisMax { queries, tie } => Q::DisMax { queries: queries.iter().map(f).collect(), tie: *tie },
+      Q::Func { query, variant } => Q::Func { query: Box::new(f(query)), variant: *variant },
+      Q::Script { query, variant } => Q::Script { query: Box::new(f(query)), variant: *variant },
+      other => other.clone(),
+    }
   }
   /// D3 hypothesis can apply: any regex node (the emulation decides whether it explains the result)
   pub fn prefix_overreach(&self, _sch: &Sch, _an: &Analyzers, _collapse: bool) -> bool {
